@@ -51,11 +51,18 @@ type c11CaughtPanic struct{ site, msg string }
 
 var c11Caught []c11CaughtPanic
 
+// c11SweepCanon is set by a sweep that has a canonical value of its own to report (correspondence).
+var c11SweepCanon string
+
 func try(f func()) {
 	defer func() {
 		if v := recover(); v != nil {
 			if len(c11Caught) < 16 {
-				c11Caught = append(c11Caught, c11CaughtPanic{c11Site(string(debug.Stack())), fmt.Sprint(v)})
+				site := c11Site(string(debug.Stack()))
+				if sw, ok := v.(c11Swallowed); ok {
+					site = "fmt-swallowed:" + strings.SplitN(string(sw), ":", 2)[0]
+				}
+				c11Caught = append(c11Caught, c11CaughtPanic{site, fmt.Sprint(v)})
 			}
 		}
 	}()
@@ -76,6 +83,33 @@ func c11SweepAux(a sam.Aux) {
 	_ = a.Value()
 	_ = a.String()
 }
+
+// c11MarshalChecked formats r as SAM.  fmt recovers panics of String methods and prints
+// "%!v(PANIC=String method: ...)" instead: a swallowed panic is still a panic of the formatter.
+func c11MarshalChecked(r *sam.Record) {
+	for f := sam.FlagDecimal; f <= sam.FlagString; f++ {
+		b, _ := r.MarshalSAM(f)
+		if i := bytes.Index(b, []byte("(PANIC=")); i >= 0 {
+			end := i + 120
+			if end > len(b) {
+				end = len(b)
+			}
+			panic(c11Swallowed("sam.(*Record).MarshalSAM: fmt swallowed " + string(b[i:end])))
+		}
+	}
+	_, _ = r.MarshalText()
+	s := r.String()
+	if i := strings.Index(s, "(PANIC="); i >= 0 {
+		end := i + 120
+		if end > len(s) {
+			end = len(s)
+		}
+		panic(c11Swallowed("sam.(*Record).String: fmt swallowed " + s[i:end]))
+	}
+}
+
+// c11Swallowed is the panic value of the swallowed-panic oracle.
+type c11Swallowed string
 
 func c11SweepCigar(c sam.Cigar, n int) {
 	_ = c.IsValid(n)
@@ -119,13 +153,7 @@ func c11SweepRecord(h *sam.Header, r *sam.Record, bw *bam.Writer, sw *sam.Writer
 			_ = r.Seq.At(r.Seq.Length - 1)
 		}
 	})
-	try(func() { _ = r.String() })
-	try(func() {
-		for f := sam.FlagDecimal; f <= sam.FlagString; f++ {
-			_, _ = r.MarshalSAM(f)
-		}
-		_, _ = r.MarshalText()
-	})
+	try(func() { c11MarshalChecked(r) })
 	try(func() { _, _ = r.LessByName(r), r.LessByCoordinate(r) })
 	if bw != nil {
 		try(func() { c11WriteBAM(bw, r) })
@@ -213,6 +241,9 @@ func c11SweepHeader(h *sam.Header) {
 
 var c11Intervals = [][2]int{{0, 1}, {0, 1 << 14}, {100, 200}, {16000, 17000}, {1 << 20, 1<<20 + 5}, {0, 1 << 29}, {1<<29 - 2, 1<<29 - 1}}
 
+// a CSI query lists (end-beg)>>minShift bins by design, and minShift comes from the file: short intervals only
+var c11ShortIntervals = [][2]int{{0, 1}, {100, 200}, {16000, 17000}, {1 << 20, 1<<20 + 5}, {1<<29 - 2, 1<<29 - 1}}
+
 var c11Strategies = []index.MergeStrategy{index.Identity, index.Adjacent, index.Squash, index.CompressorStrategy(1 << 16)}
 
 type c11IdxRec struct {
@@ -281,14 +312,14 @@ func c11SweepCSI(idx *csi.Index) {
 		_, _ = idx.ReferenceStats(id)
 	}
 	for id := 0; id <= n && id < 40; id++ {
-		for _, iv := range c11Intervals {
+		for _, iv := range c11ShortIntervals {
 			_ = idx.Chunks(id, iv[0], iv[1])
 		}
 	}
 	_ = csi.WriteTo(io.Discard, idx)
 	for _, s := range c11Strategies {
 		idx.MergeChunks(s)
-		_ = idx.Chunks(0, 0, 1<<20)
+		_ = idx.Chunks(0, 0, 1<<10)
 	}
 	_ = csi.WriteTo(io.Discard, idx)
 	_ = idx.Add(c11IdxRec{id: n, beg: 1000, end: 1050}, c11Chunk, true, true)
@@ -601,8 +632,7 @@ func init() {
 		return c11Val{nvals: 1, canon: hexs([]byte(a)), sweep: func() {
 			c11SweepAux(a)
 			r := &sam.Record{Name: "q", Pos: -1, MatePos: -1, AuxFields: sam.AuxFields{a}}
-			_, _ = r.MarshalSAM(sam.FlagDecimal)
-			_ = r.String()
+			try(func() { c11MarshalChecked(r) })
 			c11WriteBAM(c11BAMWriter(), r)
 		}}, nil
 	})
@@ -635,11 +665,18 @@ func init() {
 			c[i] = sam.CigarOp(uint32(in[4*i]) | uint32(in[4*i+1])<<8 | uint32(in[4*i+2])<<16 | uint32(in[4*i+3])<<24)
 		}
 		return c11Val{nvals: 1, canon: c11CanonCigar(c), sweep: func() {
-			c11SweepCigar(c, 10)
 			r := &sam.Record{Name: "q", Ref: c11RefsFor(1)[0], Pos: 100, MatePos: -1, Cigar: c}
-			_ = r.End()
+			valid := c.IsValid(10)
+			end := r.End()
+			ref, read := c.Lengths()
+			var str []byte
+			for _, co := range c {
+				str = append(str, co.Type().String()...)
+			}
 			_ = r.Bin()
 			_ = r.Len()
+			_ = c.String()
+			c11SweepCanon = fmt.Sprintf("valid=%v end=%d lens=%d,%d str=%s", valid, end, ref, read, hexs(str))
 		}}, nil
 	})
 	// --- indexes
@@ -651,7 +688,9 @@ func init() {
 		if idx == nil {
 			return c11Val{nvals: 1, canon: "nil"}, nil
 		}
-		return c11Val{nvals: 1, canon: fmt.Sprint(idx.NumRefs()), sweep: func() { c11SweepBAI(idx) }}, nil
+		var w c11Discard
+		_ = bam.WriteIndex(&w, idx)
+		return c11Val{nvals: 1, canon: fmt.Sprintf("%d %d", idx.NumRefs(), w.n), sweep: func() { c11SweepBAI(idx) }}, nil
 	})
 	c11Register("csi.ReadFrom", func(in []byte) (c11Val, error) {
 		idx, err := csi.ReadFrom(bytes.NewReader(in))
@@ -769,7 +808,11 @@ func init() {
 		b := make([]byte, len(in))
 		copy(b, in)
 		a := sam.Aux(b[:len(b):len(b)])
-		return c11Val{nvals: 1, canon: hex.EncodeToString(in), sweep: func() { c11SweepAux(a) }}, nil
+		return c11Val{nvals: 1, canon: hex.EncodeToString(in), sweep: func() {
+			c11SweepAux(a)
+			r := &sam.Record{Name: "q", Pos: -1, MatePos: -1, AuxFields: sam.AuxFields{a}}
+			c11MarshalChecked(r)
+		}}, nil
 	})
 }
 
